@@ -24,7 +24,7 @@ EXHAUSTIVE_SUBDOMAINS = ["every NL band 1..59 x hemisphere x newer parity (direc
 ASSUMPTIONS = ["positions whose recovered latitude is within 1e-9 deg of an NL transition are counted as ambiguous, not judged",
                "equal timestamps accept either frame's position"]
 REQUIRED = ["none_result", "value_result", "same_parity", "south_wrap", "lon_wrap", "newer_even", "newer_odd",
-            "swapped_args", "datetime_ts", "position_called_with_reference"] + ["band%d_%s" % (nl, h) for nl in range(1, 60) for h in "NS"]
+            "swapped_args", "datetime_ts", "aware_datetime_ts", "position_called_with_reference"] + ["band%d_%s" % (nl, h) for nl in range(1, 60) for h in "NS"]
 
 
 def in_window(*rl):
@@ -58,6 +58,14 @@ def m_global(ctx, case):
         else:
             T0, T1 = np.float64(te), np.float64(to)
         ctx.hit("numpy_ts")
+    elif case.get("dt") == "aware":
+        # timezone-aware stamps with DIFFERENT offsets (two feeders): the absolute instant decides which frame is newer
+        z0 = datetime.timezone(datetime.timedelta(hours=(case["addr"] % 25) - 12))
+        z1 = datetime.timezone(datetime.timedelta(hours=((case["addr"] >> 5) % 25) - 12))
+        base = datetime.datetime(2024, 1, 1, 12, tzinfo=datetime.timezone.utc)
+        T0 = (base + datetime.timedelta(seconds=te)).astimezone(z0)
+        T1 = (base + datetime.timedelta(seconds=to)).astimezone(z1)
+        ctx.hit("aware_datetime_ts")
     elif case.get("dt"):
         base = datetime.datetime(2024, 1, 1)
         T0, T1 = base + datetime.timedelta(seconds=te), base + datetime.timedelta(seconds=to)
@@ -173,7 +181,7 @@ def mkcase(rng, lat, lon, dist_nm=None, order=None):
             "ca": [rng.randrange(8), rng.randrange(8)], "addr": rng.fill(24), "te": te, "to": to,
             "ref": rng.choice((None, None, [lat + rng.uniform(-1, 1), lon + rng.uniform(-1, 1)],
                                [rng.uniform(-90, 90), rng.uniform(-180, 180)], [rng.randint(-90, 90), rng.randint(-180, 179)])),
-            "dt": rng.choice((False,) * 16 + (True,) * 3 + ("np",)), "api": rng.choice(("position", "airborne_position")),
+            "dt": rng.choice((False,) * 15 + (True,) * 3 + ("np", "aware")), "api": rng.choice(("position", "airborne_position")),
             "lower": rng.choice((0, 0, 0, 0, 0, 0, 0, 1, 2, 3))}
 
 
